@@ -37,6 +37,30 @@ func checkChunkLineComments(c *core.Ctx) {
 		c.MissingAnchor("fmt.linecmt", "formatter.Comment (ChunkType constant)")
 		return
 	}
+	// the predicate itself: a comment chunk can hold several comments (`/* a */ // b` in one placeholder), so "is a line
+	// comment" cannot be read off a fixed prefix of the text: the predicate scans the text (a loop over it, or a
+	// search call on it). One that looks at the first two bytes only takes `/* a */ // b` for a block comment, no line
+	// feed follows, and the code behind it is commented out.
+	if pred := prog.SSAFunc("formatter", "Chunk.isLineComment"); pred != nil {
+		scans := len(naturalLoops(pred)) > 0
+		for _, b := range pred.Blocks {
+			for _, in := range b.Instrs {
+				if cal := core.StaticCallee(in); cal != nil && cal.Pkg != nil && (cal.Pkg.Pkg.Path() == "strings" || cal.Pkg.Pkg.Path() == "regexp") {
+					switch cal.Name() {
+					case "Contains", "Index", "ContainsAny", "IndexAny", "LastIndex", "MatchString", "Split", "Cut", "FindStringIndex":
+						scans = true
+					}
+				}
+			}
+		}
+		if scans {
+			c.Discharge("fmt.linecmt", "Chunk.isLineComment|scan", pred.Pos(), "the predicate looks at the whole text of the chunk")
+		} else {
+			c.Report("fmt.linecmt", "Chunk.isLineComment|scan", pred.Pos(), "Chunk.isLineComment decides from a fixed prefix of the chunk's text: a chunk that holds a block comment followed by a line comment (`/* a */ // b`) is taken for a block comment, no line feed is written behind it, and the rest of the statement is commented out (the formatted text does not parse, or means something else)")
+		}
+	} else {
+		c.MissingAnchor("fmt.linecmt", "formatter.(*Chunk).isLineComment")
+	}
 	isEmitter := func(fn *ssa.Function) bool {
 		if fn == nil || fn.Pkg != next.Pkg || fn.Signature.Results().Len() == 0 {
 			return false
@@ -272,4 +296,92 @@ func checkChunkLineComments(c *core.Ctx) {
 		}
 	}
 	c.Floor("fmt.linecmt", 8)
+}
+
+// checkTextRewrite (fmt.textrewrite): once statements have been rendered to text, string literals and comments are
+// just characters in it. A regular-expression or string replacement run over rendered code (collapsing blank lines,
+// trimming spaces) also rewrites what is *inside* a long string or a block comment: the literal's value changes.
+// Every replacement call in the formatter whose subject is rendered code - it derives from the String() of a buffer
+// or of rendered lines, not from a single token's text - is reported.
+func checkTextRewrite(c *core.Ctx) {
+	n := 0
+	for _, fn := range c.Prog.ModuleFuncs("formatter") {
+		for _, b := range fn.Blocks {
+			for _, in := range b.Instrs {
+				call, ok := in.(*ssa.Call)
+				if !ok {
+					continue
+				}
+				cal := call.Common().StaticCallee()
+				if cal == nil || cal.Pkg == nil {
+					continue
+				}
+				var subject ssa.Value
+				switch {
+				case cal.Pkg.Pkg.Path() == "regexp" && strings.HasPrefix(cal.Name(), "ReplaceAll"):
+					subject = call.Common().Args[1]
+				case cal.Pkg.Pkg.Path() == "strings" && (cal.Name() == "ReplaceAll" || cal.Name() == "Replace"):
+					subject = call.Common().Args[0]
+				case cal.Pkg.Pkg.Path() == "strings" && (cal.Name() == "Split" || cal.Name() == "SplitSeq" || cal.Name() == "Lines"):
+					// cut into lines to be re-indented or trimmed one by one: the lines of a long string are among them
+					if k, isK := call.Common().Args[len(call.Common().Args)-1].(*ssa.Const); cal.Name() != "Lines" && (!isK || k.Value == nil || k.Value.Kind() != constant.String || constant.StringVal(k.Value) != "\n") {
+						continue
+					}
+					subject = call.Common().Args[0]
+				default:
+					continue
+				}
+				// the subject: a parameter of a helper (judged at its callers) or a value in hand
+				rendered := func(v ssa.Value) bool {
+					for x := range core.BackSliceLocal(v) {
+						if sc, isCall := x.(*ssa.Call); isCall {
+							g := sc.Common().StaticCallee()
+							if g == nil || g.Signature.Results().Len() == 0 {
+								continue
+							}
+							if bt, isB := g.Signature.Results().At(0).Type().Underlying().(*types.Basic); !isB || bt.Kind() != types.String {
+								continue
+							}
+							// the text of a buffer, or whatever a printer of the formatter returns
+							if g.Signature.Recv() != nil {
+								rn := core.NamedTypePkgName(g.Signature.Recv().Type())
+								if (rn == "bytes.Buffer" || rn == "strings.Builder") && g.Name() == "String" {
+									return true
+								}
+							}
+							if g.Pkg != nil && g.Pkg.Pkg.Path() == core.ModPath+"/formatter" && g != fn {
+								return true
+							}
+						}
+					}
+					return false
+				}
+				hit := rendered(subject)
+				if p, isParam := subject.(*ssa.Parameter); isParam && !hit {
+					idx := -1
+					for i, q := range fn.Params {
+						if q == p {
+							idx = i
+						}
+					}
+					for _, g := range c.Prog.ModuleFuncs("formatter") {
+						for _, gb := range g.Blocks {
+							for _, gi := range gb.Instrs {
+								if gc, isCall := gi.(*ssa.Call); isCall && gc.Common().StaticCallee() == fn && idx >= 0 && rendered(gc.Common().Args[idx]) {
+									hit = true
+								}
+							}
+						}
+					}
+				}
+				if !hit {
+					continue
+				}
+				n++
+				c.Report("fmt.textrewrite", core.FnName(fn)+"|"+cal.Name(), in.Pos(), fmt.Sprintf("%s runs %s over rendered code: the replacement also applies inside long strings and block comments of that code, so a literal's value changes (`{\"a\\n\\n\\n\\nb\"}` loses blank lines)", core.FnName(fn), cal.Name()))
+			}
+		}
+	}
+	c.Instances("fmt.textrewrite", 0)
+	_ = n
 }
